@@ -7,6 +7,7 @@ import (
 	"encoding/json"
 	"fmt"
 	"os"
+	"strings"
 	"sync"
 	"testing"
 	"time"
@@ -90,7 +91,7 @@ func TestVerifZipperWork(t *testing.T) {
 				}
 				if len(fn.Blocks) > blocks {
 					blocks = len(fn.Blocks)
-					over = r.Fingerprint == "OVERSIZED"
+					over = strings.HasPrefix(r.Fingerprint, "OVERSIZED")
 				}
 				if topo := topology.ExtractTopology(fn); topo != nil {
 					for _, l := range topo.StringLiterals {
